@@ -26,6 +26,7 @@ import os
 import random
 
 from rv import formats
+from rv.model import domains
 from rv import fmt_treeinfo as FT
 
 PROPERTY = "C08"
@@ -113,6 +114,13 @@ def modify(fmt, obj, D):
             if not v.variants and len(v.arches) > 1:
                 v.arches = set(sorted(v.arches)[1:])
                 break
+        # ... and a top-level variant GAINS the architectures some of its path tables already name (the paths were set first,
+        # the architecture list is completed later)
+        for v in sorted(obj.variants.variants.values(), key=lambda x: x.uid):
+            named = set()
+            for name in v.paths._fields:
+                named.update(getattr(v.paths, name).keys())
+            v.arches = set(v.arches) | set(a for a in named if a in domains.BINARY_ARCHES)
     elif fmt == "discinfo":
         obj.arch = "riscv64"
         obj.disc_numbers = [3, 1]
@@ -135,6 +143,16 @@ def check_dump_history(ctx, pms, fmt, D, case, seed_a, seed_b):
     at_path = None
     try:
         used = formats.build(pms, fmt, D, seed_a)
+        fresh = formats.build(pms, fmt, D, seed_b)
+        if fmt == "composeinfo":
+            # both objects carry a path for an architecture the variant does not list yet
+            for o in (used, fresh):
+                for v in sorted(o.variants.variants.values(), key=lambda x: x.uid)[:2]:
+                    extra = [a for a in ("riscv64", "s390x", "aarch64") if a not in v.arches]
+                    if extra:
+                        v.paths.os_tree[extra[0]] = "%s/%s/os" % (v.uid, extra[0])
+                        v.paths.packages[extra[0]] = "%s/%s/os/Packages" % (v.uid, extra[0])
+            ctx.count("composeinfo-path-for-an-arch-listed-later")
         if fmt == "treeinfo" and len(used.variants.variants) > 1:
             # ... dumped before with ANOTHER main variant than the default one
             import io as _io
@@ -146,7 +164,6 @@ def check_dump_history(ctx, pms, fmt, D, case, seed_a, seed_b):
         with open(path, "w") as f:
             f.write(t_before + "\n" + t_before[-200:])
         used.dump(path)
-        fresh = formats.build(pms, fmt, D, seed_b)
         modify(fmt, used, D)
         modify(fmt, fresh, D)
         try:
@@ -162,6 +179,10 @@ def check_dump_history(ctx, pms, fmt, D, case, seed_a, seed_b):
             t_fresh = "raised %s" % type(e).__name__
     except Exception as e:
         ctx.note_add("dump_history_case_skipped")
+        ctx.note("dump_history_case_skipped_example", "%s: %s" % (type(e).__name__, str(e)[:200]))
+        ctx._c08_skipped = getattr(ctx, "_c08_skipped", 0) + 1
+        if ctx._c08_skipped == 50:
+            ctx.starved("50 dump-history cases could not be set up (%s: %s)" % (type(e).__name__, str(e)[:200]))
         return
     if at_path is not None:
         bad = at_path != t_used
